@@ -399,7 +399,7 @@ def setup(tier, seed):
     return {
         'jobs': jobs,
         'harness_errors': errs,
-        'budget_s': 900 if tier == 'quick' else 3300,
+        'budget_s': 780 if tier == 'quick' else 3300,
         'explanation': 'the real DynamicNumpyArray runs with its module-global np/len/int/np_shift replaced by a shape-level shim (length + row '
                        'function with numpy\'s index/slice/out-of-range rules), so its own index arithmetic runs on symbolic integers: every index, '
                        'slice bound and append_multiple length is symbolic; a list model (length + row function) is updated by list semantics; '
